@@ -45,8 +45,16 @@ var histKinds = []string{"accepted", "accepted", "accepted", "repeat", "rejected
 func DrawHistory(ch Chooser) []HistItem {
 	n := 2 + ch.Intn(4)
 	var items []HistItem
+	var family []string
+	if ch.Intn(4) == 1 {
+		// a family of programs that differ only in how they define the type names A and B
+		family = gen.TypeStressFamily(ch.Intn, n)
+	}
 	for i := 0; i < n; i++ {
 		k := histKinds[ch.Intn(len(histKinds))]
+		if family != nil {
+			k = "type-family"
+		}
 		if k == "repeat" && len(items) == 0 {
 			k = "accepted"
 		}
@@ -66,6 +74,8 @@ func DrawHistory(ch Chooser) []HistItem {
 			it.Text = gen.JunkProgram(ch.Intn)
 		case "unparseable":
 			it.Text = gen.MutateBytes(ch.Intn, gen.Generate(ch.Intn, gen.Options{}).Text(), 3)
+		case "type-family":
+			it.Text = family[i]
 		case "type-stress":
 			// the same few type names (A, B, C) with different definitions from item to item, and
 			// equalities between them: what a cache of type facts surviving between runs would confuse
